@@ -285,4 +285,7 @@ def obligations():
     # defaults such as float(display.hfore) are read from a record the runtime fills by reference: the value that reaches the
     # library is the documented default only if program and library lay the record out identically (shared with C14)
     from tx.p_c14 import record_types
-    return statement_rows() + hbuff_prologue() + record_types() + device_functions_per_occurrence() + parser_builds_a_tree() + poke_addresses()
+    from tx.p_c05 import share, temp_sequences
+    from tx.p_c14 import rule_kinds
+    return (statement_rows() + hbuff_prologue() + record_types() + device_functions_per_occurrence() + parser_builds_a_tree() + poke_addresses()
+            + share("temporaries/", temp_sequences()) + share("kind/", rule_kinds()))
